@@ -11,7 +11,10 @@ Oracle : independent recomputation from the plain data - per-language totals, pe
 from __future__ import annotations
 
 import json
+import os
 from collections import Counter
+
+from hypothesis import strategies as st
 
 from vf.common import call_sut, run_given, shard_seed
 from vf.gen import codebase as G
@@ -121,7 +124,62 @@ def json_view(doc):
     }
 
 
+# --------------------------------------------------------------------------- the same oracle on really scanned trees
+
+SHARED_LINE_SOURCES = {
+    "js": ["function a(x) { return function inner(y) { return y; } }\n", "function a(){ return 1; } function b(){ return 2; }\n",
+           "function outer(x) {\n  return function inner(y) {\n    return y;\n  } }\n", "const f = (a) => { return a; }; function g() { return 1; }\n"],
+    "ts": ["function a(x: number): number { return x; } function b(): void { }\n", "class K { m(): void { } n(): void { } }\n"],
+    "c": ["int a(int x) { return x; } int b(int x) { return x; }\n", "int a(int x) { return x; }\nint b(int y) {\n  return y; } int c(int z) { return z; }\n"],
+    "cpp": ["int a(int x) { return x; } int b(int x) { return x; }\n"],
+    "java": ["class A { void m() { } void n() { } }\n", "class A {\n  void m() { int x = 1; } void n() {\n    int y = 2;\n  }\n}\n"],
+    "cs": ["class A { void M() { } void N() { } }\n"],
+    "py": ["def a(x):\n    def b(y): return y\n    return b\n", "def a(x):\n    return x\ndef b(y):\n    return y\n"],
+}
+
+
+def check_scanned(case):
+    """Real files (among them 'minified' ones: several functions on one line, a nested function closing on its parent's
+    last line) through the scan entry point; the totals / profiles / tree of the written report - and of the Codebase
+    object scan_path returns - must agree with the measurements listed in the same report."""
+    from pathlib import Path
+
+    from codelimit.common import Scanner
+
+    from vf.harness import cli, tree
+
+    with tree.temp_tree(case["files"]) as root:
+        res = cli.run_scan(root, ".")
+        if res.exc:
+            return (f"scan:{res.exc[0]}", res.exc[1])
+        try:
+            doc = json.loads((root / ".codelimit_cache" / "codelimit.json").read_text())
+        except Exception as e:  # noqa: BLE001
+            return ("scan:no-report", f"{type(e).__name__}: {e}")
+        data = {"root": str(root), "files": [
+            {"path": k, "language": e["language"], "checksum": e["checksum"], "lengths": [m["value"] for m in e["measurements"]]}
+            for k, e in doc["codebase"]["files"].items()]}
+        bad = compare_view(json_view(doc), data, "scanned-json")
+        if bad:
+            return bad
+        old = os.getcwd()
+        os.chdir(root)
+        try:
+            cli.reset_config()
+            r = call_sut(lambda: Scanner.scan_path(Path(".")))
+        finally:
+            os.chdir(old)
+        if r[0] == "exc":
+            return (f"scan_path:{r[1]}", r[2])
+        cb = r[1]
+        cb.aggregate()
+        data2 = {"root": str(root), "files": [{"path": k, "language": e.language, "checksum": e.checksum(), "lengths": [m.value for m in e.measurements()]} for k, e in cb.files.items()]}
+        return compare_view(object_view(cb), data2, "scanned-object")
+
+
 def run_case(cb):
+    if cb.get("kind") == "scanned":
+        return check_scanned(cb)
     from codelimit.common.ScanTotals import ScanTotals
     from codelimit.common.report.Report import Report
     from codelimit.common.report.ReportWriter import ReportWriter
@@ -174,6 +232,9 @@ def run_case(cb):
 
 
 def shrink_candidates(cb):
+    if cb.get("kind") == "scanned":
+        fs = cb["files"]
+        return [dict(cb, files={k: v for k, v in fs.items() if k != drop}) for drop in fs]
     return G.shrink_codebase(cb)
 
 
@@ -195,6 +256,34 @@ def gen(col, seed, n, wild=False, clash=False):
     run_given(body, G.codebases(wild=wild, clash=clash), seed, n)
 
 
+def gen_scanned(col, seed, n):
+    from vf.harness import tree as _tree
+
+    @st.composite
+    def cases(draw):
+        files = {}
+        for i in range(draw(st.integers(1, 6))):
+            ext = draw(st.sampled_from(sorted(SHARED_LINE_SOURCES)))
+            d = draw(st.sampled_from(["", "src/", "src/core/", "lib/a/b/", "zz/"]))
+            if draw(st.booleans()):
+                text = draw(st.sampled_from(SHARED_LINE_SOURCES[ext]))
+            else:
+                lang = {v: k for k, v in _tree.EXT.items()}[ext]
+                ls = draw(st.lists(st.sampled_from([1, 2, 5, 15, 16, 30, 31, 60, 61, 70]), min_size=1, max_size=4))
+                text = _tree.flat_file(lang, [max(2, v) for v in ls] if lang == "Python" else ls)
+            files[f"{d}m{i}.{ext}"] = text
+        return {"kind": "scanned", "files": files}
+
+    def body(case):
+        shared = any(v in SHARED_LINE_SOURCES[k.rsplit(".", 1)[1]] for k, v in case["files"].items())
+        col.eval(case, nontrivial=shared and len(case["files"]) >= 2, labels=["scanned-tree"] + (["functions-sharing-a-line"] if shared else []))
+
+    run_given(body, cases(), seed, n)
+
+
 def plan(tier, seed):
     total = 4800 if tier == "quick" else 80000
-    return [("gen", {"seed": shard_seed(seed, ID, i), "n": total // 16, "wild": i % 4 == 3, "clash": i % 4 == 2}) for i in range(16)]
+    jobs = [("gen", {"seed": shard_seed(seed, ID, i), "n": total // 16, "wild": i % 4 == 3, "clash": i % 4 == 2}) for i in range(16)]
+    nsc = 160 if tier == "quick" else 4000
+    jobs += [("gen_scanned", {"seed": shard_seed(seed, ID, f"s{i}"), "n": nsc // 8}) for i in range(8)]
+    return jobs
